@@ -295,6 +295,8 @@ func sites(o *Op, parentType typeResolver) []Reform {
 			// (not directly below _entities: a router selects __typename inside the entity fragments)
 			if !hasTypename && !isEntityList {
 				out = append(out, Reform{Kind: "typename", Path: p, I: len(list)})
+				// ... and under an alias (object and abstract parents, inside member fragments too)
+				out = append(out, Reform{Kind: "aliastypename", Path: p, I: len(list)})
 			}
 		}
 		for i, s := range list {
@@ -373,7 +375,7 @@ func apply(o *Op, r Reform, parentType typeResolver, nextID *int) *Op {
 		nl = append(nl, w)
 		nl = append(nl, list[r.J:]...)
 		*lp = nl
-	case "typename":
+	case "typename", "aliastypename":
 		if len(r.Path) == 0 || len(list) == 0 {
 			return nil
 		}
@@ -383,7 +385,11 @@ func apply(o *Op, r Reform, parentType typeResolver, nextID *int) *Op {
 			}
 		}
 		*nextID++
-		*lp = append(append([]*Sel{}, list...), &Sel{Kind: kField, ID: *nextID, Name: "__typename"})
+		n := &Sel{Kind: kField, ID: *nextID, Name: "__typename"}
+		if r.Kind == "aliastypename" {
+			n.Alias = fresh("t")
+		}
+		*lp = append(append([]*Sel{}, list...), n)
 	default:
 		return nil
 	}
